@@ -551,9 +551,14 @@ class Cx:
         if d.endswith("::into_vec") or d.endswith("slice::<impl [T]>::into_vec") or d.endswith("box_new") or d.endswith("Box::<T>::new"):
             return deref(self.ev(e["args"][0], env))
         if d in ("std::convert::From::from", "std::convert::Into::into") and len(e["args"]) == 1:
+            # a conversion implemented in the crate: the impl is named by the target and the argument type
+            to = (e.get("ty") or "")
+            aty = (e["args"][0].get("ty") or "")
+            for cand in ("<%s as std::convert::From<%s>>::from" % (to, aty), "<%s as std::convert::From<%s>>::from" % (to, aty.lstrip("&"))):
+                if cand in self.f.bodies:
+                    return self.call_fn(cand, [self.ev(e["args"][0], env)])
             # lossless primitive conversions: bool -> integer, integer widening, integer / f32 -> f64
             v = deref(self.ev(e["args"][0], env))
-            to = (e.get("ty") or "")
             if isinstance(v, bool) and to in ("usize", "u8", "u16", "u32", "u64", "u128", "isize", "i8", "i16", "i32", "i64", "i128"):
                 return int(v)
             if isinstance(v, int) and not isinstance(v, bool) and to in ("usize", "u16", "u32", "u64", "u128", "isize", "i16", "i32", "i64", "i128"):
@@ -597,6 +602,12 @@ class Cx:
                 return self.iterate(e, env)
             if nm == "is_empty":
                 return len(rv) == 0
+            if nm in ("first", "last", "first_mut", "last_mut") and not args:
+                if not rv:
+                    return {"__adt": "std::option::Option", "__variant": "std::option::Option::None"}
+                return {"__adt": "std::option::Option", "__variant": "std::option::Option::Some", "0": rv[0] if nm.startswith("first") else rv[-1]}
+            if nm in ("as_slice", "as_mut_slice", "as_ref", "as_mut", "borrow", "deref", "deref_mut") and not args:
+                return rv
             if nm == "swap" and len(args) == 2:
                 i, j = deref(self.ev(args[0], env)), deref(self.ev(args[1], env))
                 rv[i], rv[j] = rv[j], rv[i]
